@@ -117,6 +117,7 @@ func init() {
 		bal := e.bankBal(st)
 		cur := app("store", bal, inAddr, app("-", app("select", bal, inAddr), inAmt))
 		sum := "0"
+		valid := app(">", inAmt, "0") // types.ValidateInputOutputs: input and every output hold positive coins
 		for i := 0; i < 3; i++ {
 			el := app("select", arr, app("idx", app("soff", outs.S), intLit64(int64(i))))
 			a := app("addr_str", app(oss.fields[0], el))
@@ -125,9 +126,10 @@ func init() {
 			curD := e.vc.define("iobal", "(Array Addr Int)", cur)
 			cur = ite(present, app("store", curD, a, app("+", app("select", curD, a), m)), curD)
 			sum = app("+", sum, ite(present, m, "0"))
+			valid = and(valid, implies(present, app(">", m, "0")))
 		}
 		exact := app("<=", n, "3")
-		ok := e.vc.define("io_ok", "Bool", and(app(">=", app("select", bal, inAddr), inAmt), eq(inAmt, sum)))
+		ok := e.vc.define("io_ok", "Bool", and(app(">=", app("select", bal, inAddr), inAmt), eq(inAmt, sum), valid))
 		er := c.freshErr("ioerr")
 		hv := e.vc.fresh("G_bank_bal", "(Array Addr Int)")
 		e.setBankBal(st, ite(exact, ite(ok, cur, bal), hv))
